@@ -775,6 +775,14 @@ func (c *SpecCtx) call(e *ECall) (Term, error) {
 		et := x.T.Underlying().(*types.Slice).Elem()
 		comp := vc.arrComp(et)
 		return Term{fmt.Sprintf("(select %s (sl_ref %s))", vc.get(c.state(), comp), x.S), fmt.Sprintf("(Array %s %s)", vc.isort(), vc.sortOf(et)), nil}, nil
+	case "barr":
+		// barr(r): the byte array stored at reference r
+		x, err := c.eval(e.Args[0])
+		if err != nil {
+			return Term{}, err
+		}
+		comp := vc.arrComp(types.Typ[types.Uint8])
+		return Term{fmt.Sprintf("(select %s %s)", vc.get(c.state(), comp), x.S), "(Array Int Int)", nil}, nil
 	case "ref", "off":
 		x, err := c.eval(e.Args[0])
 		if err != nil {
